@@ -1,8 +1,8 @@
 #!/usr/bin/env python3
 """Self-test of the checkers in both directions.
 
-mutants.json : semantic edits that break a property -> the property's check must exit 1
-benign.json  : behaviour-preserving edits           -> every listed check must exit 0
+mutants.py : semantic edits that break a property -> the property's check must exit 1
+benign.py  : behaviour-preserving edits           -> every listed check must exit 0
 Each edit is {id, props, file, old, new[, count]} applied to a scratch copy of the
 package outside /repo and /verif (deleted afterwards).
 usage: selftest/run.py [--only ID-substring] [--kind mutants|benign] [-j N] [-v]
@@ -51,6 +51,7 @@ def main() -> int:
     ap = argparse.ArgumentParser()
     ap.add_argument("--only", default="")
     ap.add_argument("--kind", default="")
+    ap.add_argument("--prop", default="")
     ap.add_argument("-j", type=int, default=16)
     ap.add_argument("-v", action="store_true")
     a = ap.parse_args()
@@ -58,10 +59,15 @@ def main() -> int:
     for kind in ("mutants", "benign"):
         if a.kind and a.kind != kind:
             continue
-        f = V / "selftest" / f"{kind}.json"
+        f = V / "selftest" / f"{kind}.py"
         if f.exists():
-            for e in json.load(open(f)):
-                if a.only in e["id"]:
+            ns = {}
+            exec(compile(f.read_text(), str(f), "exec"), ns)
+            for e in ns[kind.upper()]:
+                if a.only in e["id"] and (not a.prop or a.prop in e["props"]):
+                    e = dict(e)
+                    if a.prop:
+                        e["props"] = [a.prop]
                     jobs.append((e, kind))
     bad = 0
     with ThreadPoolExecutor(a.j) as ex:
